@@ -77,6 +77,7 @@ template <typename F> inline int runLines(F&& step)
     std::string out = step(toks);
     std::fwrite(out.data(), 1, out.size(), stdout);
     std::fputc('\n', stdout);
+    std::fflush(stdout);  // an abort inside the NEXT op must not lose this answer (crash attribution)
   }
   std::fflush(stdout);
   return 0;
